@@ -25,9 +25,9 @@ CLAIMS = {
    tech="AST shape rule on 21 operation methods (mark prologue) + typestate for payload access + must-pass-through of WithMarks in the convert wrapper and Function.Call",
    text="Decides: every operation method tests, unmarks and re-marks ALL its operands (or purely delegates); payload assertions in operation methods happen only after the prologue; the convert wrapper and function.Call re-apply the marks they strip on every success return.",
    note="Not decided: value equality of marked and unmarked runs, mark handling inside AllowMarked implementations (exempted by the property). "),
- "C05": dict(rules=["C05.mirror","C05.builder-discipline","C05.safe-prefix-route","C20.builder-copy"],
+ "C05": dict(rules=["C05.mirror","C05.builder-discipline","C05.safe-prefix-route","C05.collapse-needs-nullness","C20.builder-copy"],
    tech="mirror (sibling) agreement of the lower/upper bound code + must-facts dominance of keep-tighter / known-value conditions over every store into the working refinement + must-pass-through of the consistency assertion + go/ssa alias check that builder and value never share a refinement record",
-   text="Decides: every builder mutator first returns unchanged for a non-refineable (dynamic) value; every store of a bound or prefix is dominated by a condition consulting the existing bound of the same family and by one consulting the value being refined, and is followed by the consistency assertion on all paths; the number lower/upper bound setters and getters are exact mirror images; the safe prefix constructor and every truncation of a prefix go through SafeKnownPrefix; Refine() works on a copy and NewValue publishes a copy.",
+   text="Decides: every builder mutator first returns unchanged for a non-refineable (dynamic) value; every store of a bound or prefix is dominated by a condition consulting the existing bound of the same family and by one consulting the value being refined, and is followed by the consistency assertion on all paths; the number lower/upper bound setters and getters are exact mirror images; the safe prefix constructor and every truncation of a prefix go through SafeKnownPrefix; Refine() works on a copy and NewValue publishes a copy; NewValue collapses to a known value only under decided nullness.",
    note="Not decided: that the reported range is exactly what the constraints imply for tie cases, that every contradiction with a known value is caught, Unicode continuation safety of SafeKnownPrefix itself (needs the UAX #15/#29 tables). "),
  "C06": dict(rules=["C06.single-mark-layer","C06.literal-payload-kind","C08.optional-taint","C08.partial-constructors","C20.set-storage","C06.normalise-before-lookup"],
    tech="must-facts over go/cfg for the unwrap-before-wrap idiom of marker construction + static payload typing of every Value literal + optional-attribute taint to value constructors (shared with C08)",
